@@ -31,7 +31,7 @@ def configs(ctx):
     quick = ctx.quick
     work = []
     tmpl = dict(U.templates("thorough"))
-    tags = ["P1", "P2"] + ([] if quick else ["P8"])
+    tags = ["P1", "P1ij", "P2", "P8b"] + ([] if quick else ["P8"])
     for tag in tags:
         expr = tmpl[tag]
         decl = U.decl_for([expr])
@@ -52,21 +52,27 @@ def configs(ctx):
 
         def add(part, chains, need, label, sizes=None):
             los = monotone_orders(chains)
-            if tag == "P8" and len(los) > 12:
-                los = los[::len(los) // 12]
+            if tag in ("P8", "P8b") and len(los) > (4 if quick else 12):
+                cap_ = 4 if quick else 12
+                los = los[::-(-len(los) // cap_)]
             exts = exts_for(need, max_cells)
+            # P8b: both storage orders of the tensor that is looked up with two coordinates
+            ros = [None] if tag != "P8b" else [None, {"B": ["K", "J", "N"]}]
             for lo in [None] + los:
-                mapping = {"partitioning": {"Z": copy.deepcopy(part)}}
-                if lo is not None:
-                    mapping["loop-order"] = {"Z": lo}
-                cfg = {"tag": "%s/%s" % (tag, label), "spec": {"decl": decl, "exprs": [expr], "mapping": mapping},
-                       "extents": exts, "allowed_rejects": STATED_REJECTS}
-                if sizes:
-                    cfg["sizes"] = sizes
-                work.append(cfg)
+                for ro in ros:
+                    mapping = {"partitioning": {"Z": copy.deepcopy(part)}}
+                    if lo is not None:
+                        mapping["loop-order"] = {"Z": lo}
+                    if ro:
+                        mapping["rank-order"] = ro
+                    cfg = {"tag": "%s/%s" % (tag, label), "spec": {"decl": decl, "exprs": [expr], "mapping": mapping},
+                           "extents": exts, "allowed_rejects": STATED_REJECTS}
+                    if sizes:
+                        cfg["sizes"] = sizes
+                    work.append(cfg)
 
         # (a) occupancy partitioning of one rank, every leader holding it
-        for r in ranks:
+        for r in (ranks if not (quick and tag == "P8b") else []):
             others = [[x] for x in ranks if x != r]
             for L in holders(decl, expr, r):
                 stacks = [[occ(L, 1)], [occ(L, 2)], [occ(L, 2), occ(L, 1)], ["uniform_shape(2)", occ(L, 1)]]
@@ -81,7 +87,7 @@ def configs(ctx):
                     add({r: [occ(L, 2), occ(L2, 1)]}, [levels(r, 2)] + others, [r], "occ2:%s@%s,%s" % (r, L, L2))
         # (b) occupancy partitioning of two ranks
         for r1, r2 in itertools.combinations(ranks, 2):
-            if quick and tag != "P1":
+            if (quick and tag != "P1") or tag == "P8b":
                 continue
             for L1 in holders(decl, expr, r1)[:1 if quick else None]:
                 for L2 in holders(decl, expr, r2)[:1 if quick else None]:
@@ -110,7 +116,7 @@ def configs(ctx):
                         add({key: ["flatten()"], flat: [occ(L, 2), occ(L, 1)]}, [levels(flat, 2)] + others, list(tup),
                             "flat+occ2:%s@%s" % (flat, L))
         # (d) flattening a partition level with another rank: X:[U(2)], (Y, X0): flatten, [YX0: occupancy]
-        for t in B.read_tensors(expr):
+        for t in (B.read_tensors(expr) if tag != "P8b" else []):
             tr = decl[t]
             for x, y in itertools.permutations(tr, 2):
                 for tup in ((y, x + "0"), (x + "0", y)):
